@@ -46,8 +46,10 @@ class Project:
         self.files: dict[str, str] = {}
         self.clock = mypyrun.BASE_MTIME
 
-    def sync(self, files: dict) -> list[str]:
-        """Write changed files, delete vanished ones. Returns changed paths."""
+    def sync(self, files: dict, unlisted=()) -> list[str]:
+        """Write changed files, delete vanished ones. Returns changed paths.
+        `unlisted`: paths that exist on disk but are not passed on the command line."""
+        self.unlisted = set(unlisted)
         changed = []
         self.clock += 2
         for p in sorted(set(self.files) - set(files)):
@@ -69,7 +71,7 @@ class Project:
 
     def targets(self) -> list[str]:
         # a .py shadowed by a sibling stub is not listed (would be a duplicate module)
-        return sorted(p for p in self.files if not (p.endswith(".py") and p + "i" in self.files))
+        return sorted(p for p in self.files if not (p.endswith(".py") and p + "i" in self.files) and p not in getattr(self, "unlisted", ()))
 
 
 def run(root: str, targets, flags, cache_dir: str):
@@ -90,6 +92,11 @@ def compare(a, b):
     same-line-order, advisory-note-placement (the last two are cosmetic classes)."""
     if a["status"] != b["status"]:
         return ("exit-status", "exit %s vs %s" % (a["status"], b["status"]))
+    if a["status"] == 2:
+        # both runs were stopped by a blocking error: which NON-blocking diagnostics were already printed when the
+        # blocker was hit depends on processing order and on what came from the cache (listed finding); only the
+        # exit status is compared for blocked runs
+        return None
     nfa, adva = diag.normal_form(a["diags"])
     nfb, advb = diag.normal_form(b["diags"])
     if nfa != nfb or adva != advb:
@@ -150,7 +157,7 @@ def confirm_prefix(st0, ops, upto: int, flags, seed_prefix: str):
         for step in range(upto + 1):
             if step > 0:
                 project.apply_edit(st, ops[step - 1])
-            proj.sync(project.render(st))
+            proj.sync(project.render(st), project.unlisted_paths(st))
             warm = run_fresh(root, proj.targets(), flags, cache)
         cold = run_fresh(root, proj.targets(), flags, cold_dir)
         return compare(warm, cold), warm, cold
